@@ -304,6 +304,31 @@ def tags_case(u, rep, which, timeout):
             rep.obligation(oname, fn, 'post', res, sample='sf(**all metadata) == sf(tagged field only); expected key from the key_tag field')
             if res['result'] == 'sat': rep.violation(oname, fn, 'another metadata field overrides the tagged one', case, str(res.get('model'))[:400], *native(case))
 
+def reuse_case(u, rep, ns, cls, timeout):
+    """results of earlier calls stay what they were: a second call (next batch, or another selection function of the same shape) must not overwrite an
+    array that was returned before (no buffer shared between calls)"""
+    mod = u.amod if ns == 'aes' else u.dmod; width = 16 if ns == 'aes' else 8
+    tag = (AES_CLASSES if ns == 'aes' else DES_CLASSES)[cls][0] if ns == 'aes' else 'plaintext'
+    fn = (AMOD if ns == 'aes' else DMOD) + '::' + cls
+    def body():
+        N = core.sym_int('N', 1); X1 = H.sym_bytes('X1', (N, width), 'uint8'); X2 = H.sym_bytes('X2', (N, width), 'uint8'); G = H.sym_bytes('G', (2,), 'uint8')
+        L.set_task(stubs=aes_stubs() if ns == 'aes' else des_stubs())
+        sf = getattr(mod, cls)(guesses=G); other = getattr(mod, cls)(guesses=G)
+        out1 = sf(**{tag: X1})
+        n = z3.Int('n!'); core.assume(z3.And(n >= 0, n < N.z))
+        before = [out1.at(SInt(n), g, w) for g in range(2) for w in range(width)]
+        out2 = sf(**{tag: X2}); out3 = other(**{tag: X2})
+        after = [out1.at(SInt(n), g, w) for g in range(2) for w in range(width)]
+        return before, after, out1.st is out2.st or out1.st is out3.st
+    oname = 'history[%s.%s: an array returned by an earlier call is not overwritten by later calls]' % (ns, cls); case = dict(kind='reuse', ns=ns, cls=cls)
+    for p, outc, exc in core.explore(body):
+        if exc is not None:
+            rep.obligation(oname, fn, 'post', dict(result='sat', backend='exec', secs=0), sample=repr(exc)); rep.violation(oname, fn, 'raises %r' % (exc,), case, None, *native(case)); continue
+        before, after, shared = outc
+        res = dict(result='sat', backend='frame-scan', secs=0) if shared else (dict(result='unsat', backend='structural', secs=0) if H.structurally_equal(before, after, simp=True) else solve.discharge(p.pc, H.eq_all(before, after), timeout_ms=timeout))
+        rep.obligation(oname, fn, 'frame', res, sample='out1 read again after two more calls of the same shape')
+        if res['result'] == 'sat': rep.violation(oname, fn, 'the result of an earlier call aliases a buffer that later calls write', case, None, *native(case))
+
 def alias_case(u, rep):
     pairs = [(u.adec, u.amod, {'FirstAddRoundKey': 'LastAddRoundKey', 'LastAddRoundKey': 'FirstAddRoundKey', 'FirstSubBytes': 'LastSubBytes', 'LastSubBytes': 'FirstSubBytes', 'DeltaRFirstRounds': 'DeltaRLastRounds'}, 'aes'),
              (u.ddec, u.dmod, DEC_ALIAS, 'des')]
@@ -351,6 +376,7 @@ def main():
     wsel = [(3, 'int 3'), ([0, 5, 5, 15], 'list [0,5,5,15]'), (slice(2, 11, 3), 'slice(2,11,3)'), (symnp.from_real(_rnp.array([15, 0, 7], dtype='uint8')), 'array [15,0,7]'), (Ellipsis, 'Ellipsis'), (None, 'None')]
     for k in range(len(wsel)): units.append(('w', k))
     units += [('tags', 'aes_first'), ('tags', 'aes_last')]
+    units += [('reuse', 'aes', 'FirstAddRoundKey'), ('reuse', 'aes', 'LastAddRoundKey'), ('reuse', 'aes', 'FirstSubBytes'), ('reuse', 'aes', 'DeltaRLastRounds')]
     def work(sub, kind, *args):
         if kind == 'af': aes_formula_case(u, sub, args[0], args[1], args[2], args[3], timeout)
         elif kind == 'at': aes_true_key_case(u, sub, args[0], args[1], timeout)
@@ -358,6 +384,7 @@ def main():
         elif kind == 'dt': des_true_key_case(u, sub, args[0], timeout)
         elif kind == 'w': words_case(u, sub, wsel[args[0]][0], wsel[args[0]][1], timeout)
         elif kind == 'tags': tags_case(u, sub, args[0], timeout)
+        elif kind == 'reuse': reuse_case(u, sub, args[0], args[1], timeout)
     P.run_units(rep, work, units)
     alias_case(u, rep); canary(u, rep, timeout)
     rc, o, so, se = R.run_native('props.c07_native', ['bounded', str(seed), a.tier], timeout=1500)
